@@ -163,7 +163,11 @@ func (p *jsonPathParser) setNodeChain() {
 
 			nextNode := next.(syntaxNode)
 
-			if multiIdentifier, ok := last.(*syntaxChildMultiIdentifier); ok {
+			tail := last
+			for tail.getNext() != nil {
+				tail = tail.getNext()
+			}
+			if multiIdentifier, ok := tail.(*syntaxChildMultiIdentifier); ok {
 				for _, singleIdentifier := range multiIdentifier.identifiers {
 					singleIdentifier.setNext(nextNode)
 				}
